@@ -15,7 +15,7 @@ use std::time::Duration;
 
 pub static PROP: Prop = Prop {
     id: "C18",
-    rule: "cases: histories run in a fresh child process over 1-3 persistent threads: steps set_<kind>_descriptor([name,] marker) for the nine node kinds (unary, binary, postfix, ternary, function, reference, list, map, chain), names drawn from the operators, functions and references occurring in the case's ASTs and from names that do not, re-registrations with a new marker, the same spelling used for different kinds (`-` prefix and infix, `++`, a function and a reference both called foo); after EVERY step every AST of the case (1-3 programs from the flat generator, all nine node kinds, rendered fully parenthesised) is described on every thread. Oracle: a model registry (kind[, name]) -> marker; a marker descriptor renders <id:kind:name:child|child...> (one marker in seven renders as the empty string; every marker also reports a descriptor store that is locked while it runs); nodes without registration render with the default (literal = expr(), op+rhs, lhs+op+rhs, lhs+op, c?a:b, name(a,b), name, [a,b], {k:v}, statements joined by `;`); the model's string must equal describe() after every step on every thread. Plus the exhaustive single-registration table: 9 kinds x {a name that occurs, a name that does not} against an AST containing all nine kinds. Non-trivial: >= 2 registrations of different kinds of which one shares its name with a node of another kind, or a re-registration, or >= 2 threads with a registration after the first describe; distinct by (registered (kind, name-class) sequence, thread count, AST kind multiset).",
+    rule: "cases: histories run in a fresh child process over 1-3 persistent threads: steps set_<kind>_descriptor([name,] marker) for the nine node kinds (unary, binary, postfix, ternary, function, reference, list, map, chain), names drawn from the operators, functions and references occurring in the case's ASTs and from names that do not, re-registrations with a new marker, the same spelling used for different kinds (`-` prefix and infix, `++`, a function and a reference both called foo); after EVERY step every AST of the case (1-3 programs from the flat generator, all nine node kinds, rendered fully parenthesised) is described on every thread. Oracle: a model registry (kind[, name]) -> marker; a marker descriptor renders <id:kind:name:child|child...> (one marker in seven renders as the empty string; every marker also reports a descriptor store that is locked while it runs); nodes without registration render with the default (literal = expr(), op+rhs, lhs+op+rhs, lhs+op, c?a:b, name(a,b), name, [a,b], {k:v}, statements joined by `;`); the model's string must equal describe() after every step on every thread. Plus the exhaustive single-registration table: 9 kinds x {a name that occurs, a name that does not} against an AST containing all nine kinds. Plus bursts of first-time registrations: 2-8 threads released by one barrier each register a descriptor for a fresh name of their own (hundreds of rounds); a program using all the names must then be described with every marker. Plus, per kind, a replacement race: a registered marker 1 is replaced by marker 2, 1, 2, ... (thousands of times; descriptors that own state whose Drop is instant or takes 30 us) while three threads describe the all-kinds AST: every node of that kind must be rendered by marker 1 or by marker 2 (the rendering is compared with the model's after mapping marker 2 to marker 1) - a registration exists at every moment, so the default rendering is a violation. Non-trivial: >= 2 registrations of different kinds of which one shares its name with a node of another kind, or a re-registration, or >= 2 threads with a registration after the first describe; distinct by (registered (kind, name-class) sequence, thread count, AST kind multiset).",
     assumptions: &[
         "registrations go through the cfg-guarded re-export of DescriptorManager (the module is private)",
         "the AST is obtained from the fully parenthesised rendering, so grouping does not depend on C02",
@@ -146,20 +146,151 @@ pub fn model_describe(r: &R, reg: &Registry) -> String {
     }
 }
 
+/// state owned by a registered descriptor; dropping it takes `0` microseconds
+struct Owned(u32);
+impl Drop for Owned {
+    fn drop(&mut self) {
+        if self.0 > 0 {
+            let t = std::time::Instant::now();
+            while t.elapsed() < Duration::from_micros(self.0 as u64) {
+                std::hint::spin_loop();
+            }
+        }
+    }
+}
+
 fn register(kind: &str, name: &str, id: u32) {
+    register_with(kind, name, id, true, 0)
+}
+
+/// `probe`: the marker also reports a locked store (only meaningful while no other thread uses it)
+fn register_with(kind: &str, name: &str, id: u32, probe: bool, slow_drop_us: u32) {
     let mut m = DescriptorManager::new();
     let k = kind.to_string();
+    let g = Owned(slow_drop_us);
+    let mk = move |id: u32, kind: &str, name: &str, children: &[String]| {
+        let _owned = &g;
+        if probe {
+            live_marker(id, kind, name, children)
+        } else {
+            marker(id, kind, name, children)
+        }
+    };
     match kind {
-        "unary" => m.set_unary_descriptor(name.to_string(), Arc::new(move |op, rhs| live_marker(id, &k, &op, &[rhs]))),
-        "binary" => m.set_binary_descriptor(name.to_string(), Arc::new(move |op, l, r| live_marker(id, &k, &op, &[l, r]))),
-        "postfix" => m.set_postfix_descriptor(name.to_string(), Arc::new(move |lhs, op| live_marker(id, &k, &op, &[lhs]))),
-        "ternary" => m.set_ternary_descriptor(Arc::new(move |c, a, b| live_marker(id, &k, "", &[c, a, b]))),
-        "function" => m.set_function_descriptor(name.to_string(), Arc::new(move |n, params| live_marker(id, &k, &n, &params))),
-        "reference" => m.set_reference_descriptor(name.to_string(), Arc::new(move |n| live_marker(id, &k, &n, &[]))),
-        "list" => m.set_list_descriptor(Arc::new(move |items| live_marker(id, &k, "", &items))),
-        "map" => m.set_map_descriptor(Arc::new(move |pairs| live_marker(id, &k, "", &pairs.iter().map(|(a, b)| format!("{}=>{}", a, b)).collect::<Vec<_>>()))),
-        _ => m.set_chain_descriptor(Arc::new(move |items| live_marker(id, &k, "", &items))),
+        "unary" => m.set_unary_descriptor(name.to_string(), Arc::new(move |op, rhs| mk(id, &k, &op, &[rhs]))),
+        "binary" => m.set_binary_descriptor(name.to_string(), Arc::new(move |op, l, r| mk(id, &k, &op, &[l, r]))),
+        "postfix" => m.set_postfix_descriptor(name.to_string(), Arc::new(move |lhs, op| mk(id, &k, &op, &[lhs]))),
+        "ternary" => m.set_ternary_descriptor(Arc::new(move |c, a, b| mk(id, &k, "", &[c, a, b]))),
+        "function" => m.set_function_descriptor(name.to_string(), Arc::new(move |n, params| mk(id, &k, &n, &params))),
+        "reference" => m.set_reference_descriptor(name.to_string(), Arc::new(move |n| mk(id, &k, &n, &[]))),
+        "list" => m.set_list_descriptor(Arc::new(move |items| mk(id, &k, "", &items))),
+        "map" => m.set_map_descriptor(Arc::new(move |pairs| mk(id, &k, "", &pairs.iter().map(|(a, b)| format!("{}=>{}", a, b)).collect::<Vec<_>>()))),
+        _ => m.set_chain_descriptor(Arc::new(move |items| mk(id, &k, "", &items))),
     }
+}
+
+/// child, burst mode: {"burst": {"threads": T, "rounds": R}}: per round T threads, released by one
+/// barrier, each register a descriptor for a fresh name of its own (function / reference
+/// descriptors); afterwards a program that uses all T names is described
+fn burst_worker(doc: &J) -> i32 {
+    let threads = doc["burst"]["threads"].as_u64().unwrap_or(3).max(2) as usize;
+    let rounds = doc["burst"]["rounds"].as_u64().unwrap_or(100);
+    let mut lost: Vec<J> = vec![];
+    for r in 0..rounds {
+        let barrier = Arc::new(std::sync::Barrier::new(threads));
+        let specs: Vec<(String, String, u32)> = (0..threads)
+            .map(|t| {
+                let kind = if t % 2 == 0 { "function" } else { "reference" };
+                (kind.to_string(), format!("vb{}_{}", r, t), 1 + (t as u32 % 6))
+            })
+            .collect();
+        let hs: Vec<_> = specs
+            .iter()
+            .cloned()
+            .map(|(kind, name, id)| {
+                let b = barrier.clone();
+                std::thread::spawn(move || {
+                    b.wait();
+                    register_with(&kind, &name, id, false, 0);
+                })
+            })
+            .collect();
+        for h in hs {
+            let _ = h.join();
+        }
+        let text = specs.iter().map(|(k, n, _)| if k == "function" { format!("{}(1)", n) } else { n.clone() }).collect::<Vec<_>>().join(" ; ");
+        let got = match guard(|| parse_expression(&text).map(|a| a.describe()).map_err(|e| e.to_string())) {
+            Ok(Ok(d)) => d,
+            Ok(Err(e)) => format!("PARSE-ERROR {}", e),
+            Err(p) => format!("PANIC {}", p),
+        };
+        for (k, n, id) in &specs {
+            let want = if k == "function" { marker(*id, k, n, &["1".to_string()]) } else { marker(*id, k, n, &[]) };
+            if !got.contains(&want) && lost.len() < 5 {
+                lost.push(json!({"round": r, "kind": k, "name": n, "program": text, "describe": got, "missing": want}));
+            }
+        }
+    }
+    println!("{}", json!({"lost": lost}));
+    0
+}
+
+/// child, race mode: {"race": {"kind","name","ast","rounds","slow_drop_us","readers"}}
+/// marker 1 is registered, then one thread keeps replacing it by marker 2, 1, 2, ... while the
+/// readers describe the AST; prints the distinct renderings that were seen
+fn race_worker(doc: &J) -> i32 {
+    let r = &doc["race"];
+    let kind = r["kind"].as_str().unwrap_or("list").to_string();
+    let name = r["name"].as_str().unwrap_or("").to_string();
+    let text = r["ast"].as_str().unwrap_or("[1]").to_string();
+    let rounds = r["rounds"].as_u64().unwrap_or(1000);
+    let slow = r["slow_drop_us"].as_u64().unwrap_or(0) as u32;
+    let readers = r["readers"].as_u64().unwrap_or(3).max(1) as usize;
+    register_with(&kind, &name, 1, false, slow);
+    let stop = Arc::new(std::sync::atomic::AtomicBool::new(false));
+    let mut hs = vec![];
+    for _ in 0..readers {
+        let stop = stop.clone();
+        let text = text.clone();
+        hs.push(std::thread::spawn(move || {
+            let mut seen: std::collections::BTreeMap<String, u64> = BTreeMap::new();
+            let ast = match parse_expression(&text) {
+                Ok(a) => a,
+                Err(e) => {
+                    seen.insert(format!("PARSE-ERROR {}", e), 1);
+                    return seen;
+                }
+            };
+            loop {
+                let done = stop.load(std::sync::atomic::Ordering::SeqCst);
+                let d = match guard(|| ast.describe()) {
+                    Ok(d) => d,
+                    Err(p) => format!("PANIC {}", p),
+                };
+                if seen.len() < 20 || seen.contains_key(&d) {
+                    *seen.entry(d).or_insert(0) += 1;
+                }
+                if done {
+                    break;
+                }
+            }
+            seen
+        }));
+    }
+    for i in 0..rounds {
+        register_with(&kind, &name, if i % 2 == 0 { 2 } else { 1 }, false, slow);
+    }
+    stop.store(true, std::sync::atomic::Ordering::SeqCst);
+    let mut all: BTreeMap<String, u64> = BTreeMap::new();
+    for h in hs {
+        if let Ok(m) = h.join() {
+            for (k, v) in m {
+                *all.entry(k).or_insert(0) += v;
+            }
+        }
+    }
+    println!("{}", json!({"seen": all}));
+    0
 }
 
 /// child: {"threads": T, "asts": [text], "steps": [{"kind","name","id","thread"}]}
@@ -170,6 +301,12 @@ pub fn worker() -> i32 {
     let mut s = String::new();
     std::io::stdin().read_to_string(&mut s).ok();
     let doc: J = serde_json::from_str(&s).unwrap_or(json!({}));
+    if doc.get("race").is_some() {
+        return race_worker(&doc);
+    }
+    if doc.get("burst").is_some() {
+        return burst_worker(&doc);
+    }
     let texts: Arc<Vec<String>> = Arc::new(doc["asts"].as_array().map(|a| a.iter().map(|x| x.as_str().unwrap_or("").to_string()).collect()).unwrap_or_default());
     let nthreads = doc["threads"].as_u64().unwrap_or(1).max(1) as usize;
     // persistent threads: commands are ("set", kind, name, id) or ("describe")
@@ -331,6 +468,71 @@ fn run_history(trees: &[R], steps: &[(String, String, u32, usize)], nthreads: us
     Ok(())
 }
 
+/// a registered descriptor is replaced while other threads describe: every rendering uses the old
+/// or the new descriptor, never the default (there is a registration at every moment)
+fn run_race(tree: &R, kind: &str, name: &str, slow_drop_us: u32, readers: usize, env: &Env, st: &mut Stats) -> CaseResult {
+    let text = tree.render_explicit();
+    let rounds = env.tier.pick(3_000, 40_000) / if slow_drop_us > 0 { 10 } else { 1 };
+    let scenario = json!({"race": {"kind": kind, "name": name, "ast": text, "rounds": rounds, "slow_drop_us": slow_drop_us, "readers": readers}});
+    let out = run_child(&env.exe, &["worker", "c18"], &scenario.to_string(), Duration::from_secs(120));
+    st.add_extra("child_processes", 1);
+    let doc: J = match (&out.end, serde_json::from_str::<J>(&out.stdout)) {
+        (ChildEnd::Exit(0), Ok(d)) => d,
+        _ => return Err(Failure::new("child:crash", format!("describe race child ended with {:?}; stderr: {}", out.end, out.stderr), scenario)),
+    };
+    let key = (kind.to_string(), if named(kind) { name.to_string() } else { String::new() });
+    let wants: Vec<String> = [1u32, 2].iter().map(|id| model_describe(tree, &[(key.clone(), *id)].into_iter().collect())).collect();
+    let mut n = 0;
+    for (got, count) in doc["seen"].as_object().cloned().unwrap_or_default() {
+        st.eval();
+        n += count.as_u64().unwrap_or(0);
+        // one describe() looks the descriptor up once per node: nodes of one rendering may differ
+        let normalised = got.replace(&format!("<2:{}:", kind), &format!("<1:{}:", kind));
+        if normalised != wants[0] {
+            let sig = if got.starts_with("PANIC") { "panic".to_string() } else { format!("replace-race:{}", kind) };
+            return Err(Failure::new(
+                sig,
+                format!("{}\n    while the {} descriptor [{}] was being replaced (marker 1 <-> marker 2, {} replacements) a concurrent describe() returned\n      {}\n    in which some node is rendered neither by marker 1 nor by marker 2; with marker 1 everywhere:\n      {}", text, kind, name, rounds, got, wants[0]),
+                scenario,
+            ));
+        }
+    }
+    st.add_extra("race_describes", n);
+    Ok(())
+}
+
+/// registrations of different keys made at the same moment by different threads must all be in
+/// effect afterwards ("registering a descriptor for one name never changes how another is rendered")
+fn run_burst(threads: usize, env: &Env, st: &mut Stats) -> CaseResult {
+    let rounds = env.tier.pick(400, 6_000);
+    let scenario = json!({"burst": {"threads": threads, "rounds": rounds}});
+    let out = run_child(&env.exe, &["worker", "c18"], &scenario.to_string(), Duration::from_secs(120));
+    st.add_extra("child_processes", 1);
+    let doc: J = match (&out.end, serde_json::from_str::<J>(&out.stdout)) {
+        (ChildEnd::Exit(0), Ok(d)) => d,
+        _ => return Err(Failure::new("child:crash", format!("registration burst child ended with {:?}; stderr: {}", out.end, out.stderr), scenario)),
+    };
+    st.add_extra("burst_rounds", rounds);
+    for _ in 0..rounds {
+        st.eval();
+    }
+    if let Some(l) = doc["lost"].as_array().and_then(|a| a.first()) {
+        return Err(Failure::new(
+            format!("lost-registration:concurrent:{}", l["kind"].as_str().unwrap_or("?")),
+            format!(
+                "{} threads each registered a descriptor for a fresh name of their own at the same moment (round {}); afterwards\n    {}\n    is described as\n    {}\n    which lacks {}",
+                threads,
+                l["round"],
+                l["program"].as_str().unwrap_or(""),
+                l["describe"].as_str().unwrap_or(""),
+                l["missing"].as_str().unwrap_or("")
+            ),
+            scenario,
+        ));
+    }
+    Ok(())
+}
+
 fn gen_tree(src: &mut Src, tab: &OpTable) -> R {
     let mut cfg = SynCfg::new(tab);
     cfg.max_depth = 3;
@@ -414,11 +616,38 @@ fn fixed(env: &Env, st: &mut Stats) -> CaseResult {
         }
     }
     st.set_extra("exhaustive_single_registration_table", json!(true));
+    for (kind, name) in [("unary", "-"), ("binary", "-"), ("postfix", "++"), ("ternary", ""), ("function", "foo"), ("reference", "foo"), ("list", ""), ("map", ""), ("chain", "")] {
+        for slow in [0u32, 30] {
+            i += 1;
+            if !env.mine(i) {
+                continue;
+            }
+            st.hist("replace-race");
+            st.nontrivial(&format!("race:{}:{}", kind, slow));
+            run_race(&tree, kind, name, slow, 3, env, st)?;
+        }
+    }
+    for threads in [2usize, 3, 4, 8] {
+        i += 1;
+        if !env.mine(i) {
+            continue;
+        }
+        st.hist("concurrent-first-registrations");
+        st.nontrivial(&format!("burst:{}", threads));
+        run_burst(threads, env, st)?;
+    }
     Ok(())
 }
 
 fn replay(case: &J, st: &mut Stats, env: &Env) -> CaseResult {
     let tab = OpTable::builtin();
+    if let Some(b) = case.get("burst") {
+        return run_burst(b["threads"].as_u64().unwrap_or(3) as usize, env, st);
+    }
+    if let Some(r) = case.get("race") {
+        let (tree, _, _) = crate::syntax::parse_text(r["ast"].as_str().unwrap_or(""), &tab).map_err(|e| Failure::new("harness-bug:replay", e, case.clone()))?;
+        return run_race(&tree, r["kind"].as_str().unwrap_or("list"), r["name"].as_str().unwrap_or(""), r["slow_drop_us"].as_u64().unwrap_or(0) as u32, r["readers"].as_u64().unwrap_or(3) as usize, env, st);
+    }
     let mut trees = vec![];
     for t in case["asts"].as_array().cloned().unwrap_or_default() {
         let (r, _, _) = crate::syntax::parse_text(t.as_str().unwrap_or(""), &tab).map_err(|e| Failure::new("harness-bug:replay", e, case.clone()))?;
